@@ -110,8 +110,22 @@ def make_family(name, reg0, st, ti, vi):
         return res
     return Family(name, mk, run, target_prefixes=1)
 
+def roles_registry():
+    """one type in several roles inside ONE field list: boxed and unboxed, compact and plain, in either order, named and unnamed"""
+    from regdsl import prim, seq, cpt, comp, enum, var, fld
+    return [prim("U8"), comp(["m", "Leaf"], [fld("v", 0, "u8")]), prim("U32"), cpt(2), seq(1),
+            enum(["m", "Call"], [var("batch", [fld("head", 1, "Box<Leaf>"), fld("n", 0, "u8"), fld("tail", 1, "Leaf")], 0),
+                                  var("pair", [fld(None, 1, "Leaf"), fld(None, 0, "u8"), fld(None, 1, "Box<Leaf>")], 1),
+                                  var("amounts", [fld("a", 3, "Compact<u32>"), fld("b", 2, "u32"), fld("c", 3, "Compact<u32>"), fld("d", 2, "u32")], 2),
+                                  var("mixed", [fld("x", 2, "u32"), fld("y", 3, "Compact<u32>"), fld("l", 4, "Vec<Leaf>"), fld("bl", 4, "Box<Vec<Leaf>>"), fld("l2", 4, "Vec<Leaf>")], 3)]),
+            comp(["m", "Batch"], [fld("head", 1, "Box<Leaf>"), fld("tail", 1, "Leaf"), fld("again", 1, "Box<Leaf>")]),
+            comp(["m", "Tup"], [fld(None, 1, "Leaf"), fld(None, 1, "Box<Leaf>"), fld(None, 1, "Leaf")])]
 def families(eng, tier, seed):
     C = corpus(); fams = []; sets = SETS if tier == "thorough" else SETS[:4]
+    rr = roles_registry()
+    for ti in (5, 6, 7):
+        for vi in ([None] if rr[ti]["def"][0] == "composite" else range(len(rr[ti]["def"][1]))):
+            for si, st in enumerate(sets[:2]): fams.append(make_family("standalone-roles-%d.%s-s%d" % (ti, vi, si), rr, st, ti, vi))
     names = ("calls", "enum", "compact_enum", "compact", "containers", "collections", "compact_as", "reach", "bits", "rec", "single", "tup", "prims", "lookalikes_enum", "lookalikes")
     if tier == "thorough": names = tuple(n for n in C if n not in ("empty_enum",))      # every corpus registry: all items emitted without generic parameters
     for n in names:
